@@ -144,3 +144,128 @@ def gen_session_errors(repo):
         raise ParseError('ClientOptions::default max_timeouts is not None')
     out += 'Definition default_max_timeouts : option N := None.\n'
     return out
+
+
+# ------------------------------------------------------------------------------- ClientOptions builder (C12)
+def _camel(name):
+    return ''.join(p.capitalize() for p in name.split('_'))
+
+
+@generator('ClientOptions.v', 'rodbus/src/types.rs', 'rodbus/src/tcp/client.rs', 'rodbus/src/tcp/tls/client.rs', 'rodbus/src/serial/client.rs')
+def gen_client_options(repo):
+    """Gen/ClientOptions.v: the fields of `ClientOptions`, their defaults, and for EVERY public builder method which field
+    it assigns from its argument and what the struct-update base (`..<base>`) is - `self` (all other fields kept) or the
+    default value (all other fields LOST).  The table records what the source says; the theorems need `self` everywhere.
+    Also: where the channel constructors take the queue size, decode level and timeout limit from."""
+    types = rp.read(f'{repo}/rodbus/src/types.rs')
+    sbody = rp.find_body(types, r'pub\s+struct\s+ClientOptions\s*\{')
+    fields = []
+    for item in rp.split_top(sbody):
+        item = item.strip()
+        if not item:
+            continue
+        m = re.fullmatch(r'(?:pub(?:\([a-z]+\))?\s+)?([a-z_][a-z0-9_]*)\s*:\s*(.+)', item, re.S)
+        if not m:
+            raise ParseError(f'ClientOptions: field not understood: {item[:60]}')
+        fields.append(m.group(1))
+    if not fields:
+        raise ParseError('ClientOptions: no fields')
+
+    dflt = re.search(r'impl\s+Default\s+for\s+ClientOptions\s*\{', types)
+    if not dflt:
+        raise ParseError('Default for ClientOptions not found')
+    dbody = rp.block_after(types, dflt.end() - 1)[0]
+    m = re.fullmatch(r'\s*fn\s+default\s*\(\s*\)\s*->\s*Self\s*\{\s*Self\s*\{(.*)\}\s*\}\s*', dbody, re.S)
+    if not m:
+        raise ParseError('ClientOptions::default not understood')
+    defaults = {}
+    for item in rp.split_top(m.group(1)):
+        item = item.strip()
+        if not item:
+            continue
+        fm = re.fullmatch(r'([a-z_][a-z0-9_]*)\s*:\s*(.+)', item, re.S)
+        if not fm:
+            raise ParseError(f'ClientOptions::default: {item[:60]}')
+        expr = fm.group(2).strip()
+        if re.fullmatch(r'[0-9_]+', expr):
+            val = int(expr.replace('_', ''))
+        elif expr == 'None' or re.fullmatch(r'[A-Za-z]+::default\(\)', expr):
+            val = 0             # code 0: None / the type's own default
+        else:
+            raise ParseError(f'ClientOptions::default: value of {fm.group(1)} not understood: {expr}')
+        defaults[fm.group(1)] = (val, expr)
+    if sorted(defaults) != sorted(fields):
+        raise ParseError('ClientOptions::default does not list exactly the fields of the struct')
+
+    im = re.search(r'impl\s+ClientOptions\s*\{', types)
+    if not im:
+        raise ParseError('impl ClientOptions not found')
+    ibody = rp.block_after(types, im.end() - 1)[0]
+    builders = []
+    pos = 0
+    while True:
+        fm = re.compile(r'\s*(?:#\[[^\]]*\]\s*)*(pub(?:\([a-z]+\))?\s+)?fn\s+([a-z_][a-z0-9_]*)\s*\(([^)]*)\)\s*(?:->\s*([A-Za-z:<>]+)\s*)?\{').match(ibody, pos)
+        if not fm:
+            if ibody[pos:].strip():
+                raise ParseError(f'impl ClientOptions: item not understood: {ibody[pos:].strip()[:60]}')
+            break
+        body, pos = rp.block_after(ibody, fm.end() - 1)
+        vis, name, params, ret = fm.group(1), fm.group(2), fm.group(3), fm.group(4)
+        pm = re.fullmatch(r'\s*self\s*,\s*([a-z_][a-z0-9_]*)\s*:\s*([^,]+?)\s*,?\s*', params)
+        if not vis or ret != 'Self' or not pm:
+            raise ParseError(f'ClientOptions::{name}: not a `pub fn {name}(self, value: T) -> Self` builder')
+        arg = pm.group(1)
+        bm = re.fullmatch(r'\s*Self\s*\{\s*([a-z_][a-z0-9_]*)\s*(?::\s*([a-z_][a-z0-9_]*)\s*)?,\s*\.\.\s*(self|Self::default\(\)|Default::default\(\)|ClientOptions::default\(\))\s*,?\s*\}\s*', body)
+        if not bm:
+            raise ParseError(f'ClientOptions::{name}: body is not `Self {{ field, ..base }}`')
+        field, value, base = bm.group(1), bm.group(2) or bm.group(1), bm.group(3)
+        if value != arg:
+            raise ParseError(f'ClientOptions::{name}: field {field} is not assigned from the argument')
+        if field not in fields:
+            raise ParseError(f'ClientOptions::{name}: unknown field {field}')
+        builders.append((name, field, 'BaseSelf' if base == 'self' else 'BaseDefault'))
+    if not builders:
+        raise ParseError('impl ClientOptions: no builder methods')
+
+    # where the options go: the TCP / TLS channel constructors read all of them from `options`; serial has no limit
+    tcp = rp.read(f'{repo}/rodbus/src/tcp/client.rs')
+    tls = rp.read(f'{repo}/rodbus/src/tcp/tls/client.rs')
+    ser = rp.read(f'{repo}/rodbus/src/serial/client.rs')
+    for what, src in (('tcp', tcp), ('tls', tls)):
+        if len(re.findall(r'tokio::sync::mpsc::channel\(\s*options\.max_queued_requests\s*\)', src)) != len(re.findall(r'mpsc::channel\(', src)):
+            raise ParseError(f'{what} client: the request queue is not sized by options.max_queued_requests')
+    sites = re.findall(r'ClientLoop::new\(\s*rx\s*,\s*FrameWriter::tcp\(\)\s*,\s*FramedReader::tcp\(\)\s*,\s*([^,]+?)\s*,\s*([^,]+?)\s*,?\s*\)', tcp)
+    if sites != [('options.decode_level', 'options.max_timeouts')] or 'ClientLoop::new' in tls:
+        raise ParseError('tcp client: ClientLoop::new does not take decode level and timeout limit from the options')
+    sites = re.findall(r'ClientLoop::new\(\s*rx\s*,\s*FrameWriter::rtu\(\)\s*,\s*FramedReader::rtu_response\(\)\s*,\s*([^,]+?)\s*,\s*([^,]+?)\s*,?\s*\)', ser)
+    if len(sites) != 1 or sites[0][1] != 'None':
+        raise ParseError('serial client: ClientLoop::new call not understood')
+
+    F = {f: 'F' + _camel(f) for f in fields}
+    B = {b: 'B' + _camel(b) for b, _, _ in builders}
+    out = '(* types.rs: struct ClientOptions *)\n'
+    out += 'Inductive opt_field := ' + ' | '.join(F[f] for f in fields) + '.\n'
+    out += 'Definition all_fields : list opt_field := [' + '; '.join(F[f] for f in fields) + '].\n'
+    out += 'Definition field_eqb (a b : opt_field) : bool :=\n  match a, b with\n'
+    out += ''.join(f'  | {F[f]}, {F[f]} => true\n' for f in fields) + '  | _, _ => false\n  end.\n'
+    out += 'Definition field_name (f : opt_field) : string :=\n  match f with\n'
+    out += ''.join(f'  | {F[f]} => "{f}"%string\n' for f in fields) + '  end.\n'
+    out += '(* impl Default for ClientOptions, as value codes: an integer literal is itself, None and T::default() are 0 *)\n'
+    out += 'Definition field_default (f : opt_field) : N :=\n  match f with\n'
+    out += ''.join(f'  | {F[f]} => {defaults[f][0]}      (* {defaults[f][1]} *)\n' for f in fields) + '  end.\n\n'
+    out += '(* impl ClientOptions: every method is `pub fn m(self, v: T) -> Self { Self { field: v, ..base } }` *)\n'
+    out += 'Inductive builder := ' + ' | '.join(B[b] for b, _, _ in builders) + '.\n'
+    out += 'Definition all_builders : list builder := [' + '; '.join(B[b] for b, _, _ in builders) + '].\n'
+    out += 'Definition builder_name (b : builder) : string :=\n  match b with\n'
+    out += ''.join(f'  | {B[b]} => "{b}"%string\n' for b, _, _ in builders) + '  end.\n'
+    out += '(* the field assigned from the argument *)\nDefinition builder_field (b : builder) : opt_field :=\n  match b with\n'
+    out += ''.join(f'  | {B[b]} => {F[f]}\n' for b, f, _ in builders) + '  end.\n'
+    out += '(* the struct-update base: `..self` keeps every other field, `..Self::default()` resets every other field *)\n'
+    out += 'Inductive update_base := BaseSelf | BaseDefault.\n'
+    out += 'Definition builder_base (b : builder) : update_base :=\n  match b with\n'
+    out += ''.join(f'  | {B[b]} => {base}\n' for b, _, base in builders) + '  end.\n\n'
+    out += '(* tcp/client.rs, tcp/tls/client.rs: queue size, decode level and timeout limit all come from the options;\n   serial/client.rs: no timeout limit *)\n'
+    out += 'Definition tcp_limit_field : opt_field := ' + F['max_timeouts'] + '.\n' if 'max_timeouts' in F else ''
+    out += 'Definition tcp_queue_field : opt_field := ' + F['max_queued_requests'] + '.\n' if 'max_queued_requests' in F else ''
+    out += 'Definition serial_limit : option N := None.\n'
+    return out
